@@ -177,6 +177,9 @@ type LBlock struct {
 	Data        []byte
 	Pad         []byte
 	Check       []byte
+	// Wrap names header integers ("csize", "usize", "filter", "proplen") written as the ten-byte
+	// encoding of value + 2^64 (hostile: a decoder working modulo 2^64 reads the same value)
+	Wrap map[string]bool
 }
 
 // LStream is the explicit layout of one stream.
@@ -197,19 +200,22 @@ type LStream struct {
 	FtrMagic   []byte
 	FtrCrcBad  bool
 	PadAfter   []byte
+	// Wrap names index integers ("count", "unpadded:<i>", "usize:<i>", i 0-based) written as the
+	// ten-byte encoding of value + 2^64
+	Wrap map[string]bool
 }
 
 // HeaderBytes serialises the block header (size byte and CRC computed).
 func (b *LBlock) HeaderBytes() []byte {
 	h := []byte{0, b.Flags}
 	if b.HasC {
-		h = PutUvarint(h, b.CSizeField)
+		h = putUvarintW(h, b.CSizeField, b.Wrap["csize"])
 	}
 	if b.HasU {
-		h = PutUvarint(h, b.USizeField)
+		h = putUvarintW(h, b.USizeField, b.Wrap["usize"])
 	}
-	h = PutUvarint(h, b.FilterID)
-	h = PutUvarint(h, b.PropLen)
+	h = putUvarintW(h, b.FilterID, b.Wrap["filter"])
+	h = putUvarintW(h, b.PropLen, b.Wrap["proplen"])
 	h = append(h, b.FilterProps...)
 	h = append(h, b.HdrPad...)
 	h = append(h, 0, 0, 0, 0)
@@ -252,10 +258,10 @@ func Serialize(streams []LStream) []byte {
 			out = append(out, b.Check...)
 		}
 		idx := []byte{s.Indicator}
-		idx = PutUvarint(idx, s.Count)
-		for _, r := range s.Recs {
-			idx = PutUvarint(idx, r.Unpadded)
-			idx = PutUvarint(idx, r.USize)
+		idx = putUvarintW(idx, s.Count, s.Wrap["count"])
+		for i, r := range s.Recs {
+			idx = putUvarintW(idx, r.Unpadded, s.Wrap[fmt.Sprint("unpadded:", i)])
+			idx = putUvarintW(idx, r.USize, s.Wrap[fmt.Sprint("usize:", i)])
 		}
 		idx = append(idx, s.IdxPad...)
 		crc = crc32.ChecksumIEEE(idx)
@@ -279,11 +285,24 @@ func Serialize(streams []LStream) []byte {
 	return out
 }
 
+// putUvarintW is PutUvarint, or - wrap - the ten-byte encoding of v + 2^64: nine continuation
+// bytes carrying the low 63 bits, then a byte with bit 63 of v and bit 64 set.
+func putUvarintW(dst []byte, v uint64, wrap bool) []byte {
+	if !wrap {
+		return PutUvarint(dst, v)
+	}
+	for i := 0; i < 9; i++ {
+		dst = append(dst, byte(v)|0x80)
+		v >>= 7
+	}
+	return append(dst, byte(v)&1|0x02)
+}
+
 // IndexSize returns the size of the serialised index (incl. CRC).
 func (s *LStream) IndexSize() int {
-	n := 1 + len(PutUvarint(nil, s.Count))
-	for _, r := range s.Recs {
-		n += len(PutUvarint(nil, r.Unpadded)) + len(PutUvarint(nil, r.USize))
+	n := 1 + len(putUvarintW(nil, s.Count, s.Wrap["count"]))
+	for i, r := range s.Recs {
+		n += len(putUvarintW(nil, r.Unpadded, s.Wrap[fmt.Sprint("unpadded:", i)])) + len(putUvarintW(nil, r.USize, s.Wrap[fmt.Sprint("usize:", i)]))
 	}
 	return n + len(s.IdxPad) + 4
 }
